@@ -197,6 +197,10 @@ impl ModelG {
                 }
                 let p = need!(*g, *a);
                 o.b("tbl_base", &menc(*g, &p));
+                if *g == 0 {
+                    o.b("tbl_clamped", &p.mul_le(&sc::clamp(&s.b.a32())).encode());
+                    o.b("tbl_converted", &p.mul_le(&sc_int(s)).encode());
+                }
                 self.set(*g, *dst, p.mul_le(&sc_int(s)), &mut o);
             }
             Step::Dbl2 { g, dst, sa, a, sb, .. } => {
@@ -313,10 +317,53 @@ impl ModelG {
                 let p = need!(0, *a);
                 self.set(1, *dst, p.dbl(), &mut o);
             }
+            Step::Rand { g, dst, rng } => match model_random(*g, &rng.b.0) {
+                Some(p) => self.set(*g, *dst, p, &mut o),
+                None => return Out::Skip,
+            },
+            Step::Cofac { dst, a, via } => {
+                let p = need!(0, *a);
+                match via {
+                    0 => self.set(0, *dst, p.mul8(), &mut o),
+                    1 => {
+                        let tf = p.is_torsion_free();
+                        o.f("some", tf);
+                        if tf {
+                            self.set(0, *dst, p, &mut o);
+                        } else {
+                            self.e[*dst as usize % NREG] = None;
+                        }
+                    }
+                    _ => {
+                        o.f("is_torsion_free", p.is_torsion_free());
+                        o.f("is_small_order", p.is_small_order());
+                        o.f("is_identity", p.is_identity());
+                    }
+                }
+            }
             _ => return Out::Skip,
         }
         Out::Obs(o)
     }
+}
+
+/// What the random constructors must return for a given RNG stream (handed out cyclically).
+/// None when the Edwards rejection loop would not terminate within 64 draws.
+pub fn model_random(g: u8, stream: &[u8]) -> Option<Pt> {
+    let s: &[u8] = if stream.is_empty() { &[0u8] } else { stream };
+    if g == 1 {
+        let b: Vec<u8> = (0..64).map(|i| s[i % s.len()]).collect();
+        return Some(mr::from_uniform_bytes(&refmodel::arr64(&b)));
+    }
+    for it in 0..64 {
+        let b: Vec<u8> = (0..32).map(|i| s[(it * 32 + i) % s.len()]).collect();
+        if let Some(p) = Pt::decode(&refmodel::arr32(&b)) {
+            if !p.is_identity() {
+                return Some(p);
+            }
+        }
+    }
+    None
 }
 
 // ------------------------------------------------------------------ real world
@@ -825,10 +872,17 @@ impl RealG {
                             if r1.compress() != r2.compress() || r1.compress() != r3.compress() {
                                 o.f("table_paths_disagree", true);
                             }
-                            (bp, r1)
+                            // the clamped entry point of the table, and a table of another radix converted from this one
+                            let cl = t.mul_base_clamped(s.b.a32());
+                            let conv = if *radix == 16 {
+                                EdwardsBasepointTableRadix64::from(&EdwardsBasepointTableRadix16::create(&p)).mul_base(&k)
+                            } else {
+                                EdwardsBasepointTableRadix16::create(&t.basepoint()).mul_base(&k)
+                            };
+                            (bp, r1, cl, conv)
                         }};
                     }
-                    let (bp, r) = match radix {
+                    let (bp, r, cl, conv) = match radix {
                         32 => tbl!(EdwardsBasepointTableRadix32),
                         64 => tbl!(EdwardsBasepointTableRadix64),
                         128 => tbl!(EdwardsBasepointTableRadix128),
@@ -836,6 +890,8 @@ impl RealG {
                         _ => tbl!(EdwardsBasepointTableRadix16),
                     };
                     o.b("tbl_base", bp.compress().as_bytes());
+                    o.b("tbl_clamped", cl.compress().as_bytes());
+                    o.b("tbl_converted", conv.compress().as_bytes());
                     set_e!(*dst, r);
                 } else {
                     use curve25519_dalek::ristretto::RistrettoBasepointTable;
@@ -908,6 +964,37 @@ impl RealG {
             Step::FromEd { dst, a } => {
                 let p = need_e!(*a);
                 set_r!(*dst, verif_hooks::ristretto_from_edwards(p + p));
+            }
+            Step::Rand { g, dst, rng } => {
+                if model_random(*g, &rng.b.0).is_none() {
+                    return Out::Skip;
+                }
+                let mut r = crate::env::SimRng::new(&rng.b.0);
+                if *g == 0 {
+                    set_e!(*dst, <EdwardsPoint as Group>::random(&mut r));
+                } else {
+                    set_r!(*dst, RistrettoPoint::random(&mut r));
+                }
+            }
+            Step::Cofac { dst, a, via } => {
+                use group::cofactor::CofactorGroup;
+                let p = need_e!(*a);
+                match via {
+                    0 => set_e!(*dst, EdwardsPoint::from(CofactorGroup::clear_cofactor(&p))),
+                    1 => {
+                        let s: Option<curve25519_dalek::edwards::SubgroupPoint> = CofactorGroup::into_subgroup(p).into();
+                        o.f("some", s.is_some());
+                        match s {
+                            Some(s) => set_e!(*dst, EdwardsPoint::from(s)),
+                            None => self.e[*dst as usize % NREG] = None,
+                        }
+                    }
+                    _ => {
+                        o.f("is_torsion_free", bool::from(CofactorGroup::is_torsion_free(&p)));
+                        o.f("is_small_order", bool::from(CofactorGroup::is_small_order(&p)));
+                        o.f("is_identity", bool::from(Group::is_identity(&p)));
+                    }
+                }
             }
             _ => return Out::Skip,
         }
